@@ -252,6 +252,42 @@ func C02(r *h.Run) {
 			}
 		}
 	}
+	// coded errors whose CAUSE is a context error (a handler whose own backend call timed out):
+	// the code, message, details and metadata the handler chose must arrive, not a re-coded error
+	for pi, proto := range protos {
+		for ki, kind := range kinds {
+			for ci, cause := range []error{context.DeadlineExceeded, context.Canceled} {
+				var copts []connect.ClientOption
+				switch proto {
+				case "grpc":
+					copts = append(copts, connect.WithGRPC())
+				case "grpcweb":
+					copts = append(copts, connect.WithGRPCWeb())
+				}
+				code := []connect.Code{connect.CodeUnavailable, connect.CodeInternal, connect.CodeAborted, connect.CodeDeadlineExceeded, connect.CodeCanceled}[(pi+ki+ci)%5]
+				wrapped := fmt.Errorf("backend call: %w", cause)
+				retErr := connect.NewError(code, wrapped)
+				for _, d := range mkDetails(1) {
+					retErr.AddDetail(d)
+				}
+				retErr.Meta().Add("X-Err", "kept")
+				send := [][]byte{{1}, {2}}
+				if kind == "unary" || kind == "client" {
+					send = [][]byte{{1}}
+				}
+				ex := &e2eExtras{}
+				res := runE2E(bytesValueKind, kind, viaLocal, copts, nil, [][]byte{{1}}, send, retErr, 0, ex)
+				in := map[string]any{"proto": proto, "kind": kind, "code": code.String(), "cause": cause.Error(), "source": "handler error wrapping a context error"}
+				r.Eval("e2e_ctx_cause", fmt.Sprint(pi, kind, ci))
+				if res.Panic != nil {
+					r.Fail(h.Failure{Key: "error/panic-or-hang", Family: "e2e_ctx_cause", What: fmt.Sprint(res.Panic), Input: in})
+					continue
+				}
+				r.Sample("e2e_ctx_cause", map[string]any{"in": in, "client_error": fmt.Sprint(ex.ClientErr)})
+				checkError(r, "e2e_ctx_cause", in, ex.ClientErr, code, wrapped.Error(), mkDetails(1), http.Header{"X-Err": {"kept"}})
+			}
+		}
+	}
 	// interceptor-returned and plain errors
 	for pi, proto := range protos {
 		for _, kind := range kinds {
